@@ -867,7 +867,7 @@ Qed.
 
 (* ---- the attribute printer when an I/O object carries memory (never after load) ---- *)
 Definition IO_MEMORY_WITNESS : aobj :=
-  AO HWLOC_OBJ_PCI_DEVICE 1048576 0 0 0 0 0 0 0 0 0 0 0 2 0 32902 4307 512 (lit "Ethernet") false [] [].
+  AO HWLOC_OBJ_PCI_DEVICE 1048576 0 0 0 0 0 0 0 0 0 0 0 2 0 32902 4307 512 false [] [].
 Lemma attr_io_memory_witness :
   exists st, attr_snprintf (repeat 170 96) IO_MEMORY_WITNESS [32] HWLOC_OBJ_SNPRINTF_FLAG_MORE_ATTRS = PrOk (Some st)
     /\ ps_ret st = 65%nat /\ nth 52 (ps_buf st) 1 = 0 /\ ~ In 0 (firstn 52 (ps_buf st)).   (* returns 65, the text has 52 bytes *)
@@ -893,4 +893,156 @@ Lemma type_text_function_lemma loop o1 o2 flags : to_type o1 = to_type o2 -> tke
 Proof.
   intros Ht Hk. pose proof (type_pieces_function_of_key loop o1 o2 flags Ht Hk) as E. split; [exact E|].
   intros init. unfold type_snprintf_gen. now rewrite E.
+Qed.
+
+(* ================================================================== *)
+(* hwloc_pci_class_string: every class id gives a name that fits the attribute text *)
+Definition class_name_ok (n : string) : bool :=
+  let b := bytes_of_string n in
+  negb (Nat.eqb (List.length b) 0) && Nat.leb (List.length b) 27 &&
+  forallb (fun c => (33 <=? c) && (c <=? 126) && negb (c =? 40) && negb (c =? 41)) b.
+Definition all_class_names : list string :=
+  "Other"%string :: flat_map (fun e => (match snd (fst e) with Some d => [d] | None => [] end) ++ map snd (snd e)) pci_class_names.
+Lemma pci_class_string_in c : In (pci_class_string c) all_class_names.
+Proof.
+  unfold pci_class_string, all_class_names.
+  destruct (find _ pci_class_names) as [[[b d] sp]|] eqn:F; [|left; reflexivity].
+  apply find_some in F. destruct F as [Hin _].
+  destruct (find _ sp) as [[c' n]|] eqn:F2.
+  - right. apply in_flat_map. exists (b, d, sp). split; [exact Hin|]. cbn [fst snd].
+    apply find_some in F2. destruct F2 as [Hin2 _]. apply in_or_app. right.
+    apply in_map_iff. exists (c', n). split; [reflexivity|exact Hin2].
+  - destruct d as [n|]; [|left; reflexivity].
+    right. apply in_flat_map. exists (b, Some n, sp). split; [exact Hin|]. cbn [fst snd].
+    apply in_or_app. left. left. reflexivity.
+Qed.
+Lemma all_class_names_ok : forallb class_name_ok all_class_names = true.
+Proof. vm_compute. reflexivity. Qed.
+(* for every class id (0..65535 and beyond): 1..27 printable bytes, no blank, no parenthesis *)
+Lemma pci_class_string_wellformed c : class_name_ok (pci_class_string c) = true.
+Proof. pose proof all_class_names_ok as H. rewrite forallb_forall in H. apply H, pci_class_string_in. Qed.
+
+(* ================================================================== *)
+(* memory tier names *)
+Definition tier_canon (t : N) : N := if t =? TIER_CXL then N.lor TIER_CXL TIER_DRAM else t.
+Lemma tier_names_roundtrip_all :
+  forallb (fun e => match tier_type_sscanf (cstr (snd e)) with
+                    | Ok v => (v =? tier_canon (fst e)) &&
+                              match tier_type_snprintf v with Some n => String.eqb n (snd e) | None => false end
+                    | Oob => false end) tier_names = true.
+Proof. vm_compute. reflexivity. Qed.
+(* every name the printer can return is accepted, gives back the value (CXL alone is printed as, and parsed to,
+   CXL|DRAM) and prints as the same name again *)
+Lemma tier_roundtrip t n : tier_type_snprintf t = Some n ->
+  tier_type_sscanf (cstr n) = Ok (tier_canon t) /\ tier_type_snprintf (tier_canon t) = Some n.
+Proof.
+  unfold tier_type_snprintf at 1. destruct (find _ tier_names) as [[t' n']|] eqn:F; [|discriminate].
+  intros [= <-]. apply find_some in F. destruct F as [Hin Ht]. cbn [fst] in Ht. apply N.eqb_eq in Ht. subst t'.
+  pose proof tier_names_roundtrip_all as H. rewrite forallb_forall in H. specialize (H (t, n') Hin). cbn [fst snd] in H.
+  destruct (tier_type_sscanf (cstr n')) as [v|]; [|discriminate].
+  apply andb_true_iff in H. destruct H as [Hv Hn]. apply N.eqb_eq in Hv. subst v. split; [reflexivity|].
+  destruct (tier_type_snprintf (tier_canon t)) as [m|]; [|discriminate]. apply String.eqb_eq in Hn. now subst m.
+Qed.
+(* what the parser returns is 0 or a value the printer names *)
+Lemma tier_keywords_printable : forallb (fun e => match tier_type_snprintf (snd e) with Some _ => true | None => false end) tier_keywords = true.
+Proof. vm_compute. reflexivity. Qed.
+Lemma tier_chain_ok s n : cstring s n -> forall kws, forallb (fun e => lit_ok (fst e)) kws = true ->
+  exists v, tier_sscanf_chain s kws = Ok v /\ (v = 0 \/ In v (map snd kws)).
+Proof.
+  intros Hs. induction kws as [|[k v] r IH]; intros H; cbn [tier_sscanf_chain].
+  - eexists. split; [reflexivity|left; reflexivity].
+  - cbn [forallb fst] in H. apply andb_true_iff in H. destruct H as [Hk Hr].
+    pose proof (lit_ok_no_nul k Hk) as Hn.
+    assert (Hc : cstring (cstr k) (len (bytes_of_string k))) by (unfold cstr; apply (cstring_app _ [] Hn)).
+    unfold strcasecmp_eq.
+    pose proof (strncmp_f_ok tolower (S (List.length (bytes_of_string k))) s n 0 (cstr k) (len (bytes_of_string k)) 0
+                  fold_ok_tolower Hs Hc ltac:(lia) ltac:(lia)) as Hok.
+    destruct (strncmp_f tolower (S (List.length (bytes_of_string k))) s 0 (cstr k) 0) as [o|]; [|congruence].
+    cbn [cmp_eq bind]. destruct o.
+    + destruct (IH Hr) as [v' [E [Z|I]]]; exists v'; (split; [exact E|]); [left; exact Z|right; right; exact I].
+    + eexists. split; [reflexivity|]. right. left. reflexivity.
+Qed.
+Lemma tier_sscanf_total s n : cstring s n ->
+  exists v, tier_type_sscanf s = Ok v /\ (v = 0 \/ exists name, tier_type_snprintf v = Some name).
+Proof.
+  intros Hs. destruct (tier_chain_ok s n Hs tier_keywords eq_refl) as [v [E H]]. exists v. split; [exact E|].
+  destruct H as [Z|I]; [left; exact Z|right].
+  apply in_map_iff in I. destruct I as [[k v'] [Ev Hin]]. cbn [snd] in Ev. subst v'.
+  pose proof tier_keywords_printable as P. rewrite forallb_forall in P. specialize (P (k, v) Hin). cbn [snd] in P.
+  destruct (tier_type_snprintf v) as [m|]; [eexists; reflexivity|discriminate].
+Qed.
+
+(* ================================================================== *)
+(* hwloc_get_type_depth_with_attr / hwloc_type_sscanf_as_depth *)
+Lemma find_group_level_first : forall levels wanted k l0,
+  nth_error levels k = Some (HWLOC_OBJ_GROUP, wanted) ->
+  (forall j, (j < k)%nat -> nth_error levels j <> Some (HWLOC_OBJ_GROUP, wanted)) ->
+  find_group_level levels wanted l0 = (l0 + Z.of_nat k)%Z.
+Proof.
+  induction levels as [|[t gd] r IH]; intros wanted k l0 Hk Hfirst; [destruct k; discriminate|].
+  cbn [find_group_level]. destruct k as [|k].
+  - cbn in Hk. injection Hk as -> ->. rewrite !N.eqb_refl. cbn [andb]. lia.
+  - destruct ((t =? HWLOC_OBJ_GROUP) && (gd =? wanted)) eqn:E.
+    + exfalso. apply andb_true_iff in E. destruct E as [E1 E2]. apply N.eqb_eq in E1, E2. subst.
+      apply (Hfirst 0%nat); [lia|reflexivity].
+    + rewrite (IH wanted k (l0 + 1)%Z); [lia|exact Hk|].
+      intros j Hj. apply (Hfirst (S j)). lia.
+Qed.
+Lemma find_group_level_none : forall levels wanted l0,
+  (forall j, nth_error levels j <> Some (HWLOC_OBJ_GROUP, wanted)) ->
+  find_group_level levels wanted l0 = HWLOC_TYPE_DEPTH_UNKNOWN.
+Proof.
+  induction levels as [|[t gd] r IH]; intros wanted l0 H; [reflexivity|]. cbn [find_group_level].
+  destruct ((t =? HWLOC_OBJ_GROUP) && (gd =? wanted)) eqn:E.
+  - exfalso. apply andb_true_iff in E. destruct E as [E1 E2]. apply N.eqb_eq in E1, E2. subst. apply (H 0%nat). reflexivity.
+  - apply IH. intros j. apply (H (S j)).
+Qed.
+
+(* unless (Group, several Group levels, a depth given in a full-size attribute): plain hwloc_get_type_depth *)
+Lemma depth_with_attr_plain levels tdepths t attr asz :
+  t <> HWLOC_OBJ_GROUP \/ get_type_depth tdepths t <> HWLOC_TYPE_DEPTH_MULTIPLE \/ attr = None \/ attr = Some NEG1U \/ asz < SIZEOF_ATTR_UNION ->
+  get_type_depth_with_attr levels tdepths t attr asz = get_type_depth tdepths t.
+Proof.
+  intros H. unfold get_type_depth_with_attr.
+  destruct (N.ltb_spec asz SIZEOF_ATTR_UNION) as [L|L]; [reflexivity|].
+  destruct attr as [gd|]; [|reflexivity].
+  destruct (N.eqb_spec t HWLOC_OBJ_GROUP) as [Et|Et]; [|reflexivity].
+  destruct (Z.eqb_spec (get_type_depth tdepths t) HWLOC_TYPE_DEPTH_MULTIPLE) as [Ed|Ed]; [|reflexivity].
+  destruct (N.eqb_spec gd NEG1U) as [Eg|Eg]; [reflexivity|].
+  exfalso. destruct H as [H|[H|[H|[H|H]]]]; try congruence. lia.
+Qed.
+
+(* the text "Group<gd>" printed for the level k of Groups of depth gd designates level k, when no other level
+   holds Groups of that depth (hwloc gives each Group level its own depth) *)
+Lemma group_text_finds_its_level chk levels tdepths gd k :
+  get_type_depth tdepths HWLOC_OBJ_GROUP = HWLOC_TYPE_DEPTH_MULTIPLE ->
+  gd < UINT_MAX ->
+  nth_error levels k = Some (HWLOC_OBJ_GROUP, gd) ->
+  (forall j, nth_error levels j = Some (HWLOC_OBJ_GROUP, gd) -> j = k) ->
+  type_sscanf_as_depth chk levels tdepths ((GROUP_TXT ++ dec gd) ++ [0]) = Ok (Some (HWLOC_OBJ_GROUP, Z.of_nat k)).
+Proof.
+  intros Hm Hgd Hk Hu. unfold type_sscanf_as_depth. rewrite (group_sscanf chk gd) by lia. cbn [bind sv_type sv_depth].
+  unfold get_type_depth_with_attr. rewrite N.ltb_irrefl, Hm, N.eqb_refl. change (HWLOC_TYPE_DEPTH_MULTIPLE =? HWLOC_TYPE_DEPTH_MULTIPLE)%Z with true.
+  assert (E : gd =? NEG1U = false) by (apply N.eqb_neq; unfold NEG1U; lia). rewrite E. cbn [andb negb].
+  rewrite (find_group_level_first levels gd k 0 Hk); [reflexivity|].
+  intros j Hj Hc. specialize (Hu j Hc). lia.
+Qed.
+
+(* totality: the error of hwloc_type_sscanf or (type, depth); never a read outside the string *)
+Lemma type_sscanf_vals_total chk s n : cstring s n -> bytes_ok s -> (chk = true \/ no_e0 s) ->
+  exists r, type_sscanf_vals chk s = Ok r.
+Proof.
+  intros Hs Hb He. unfold type_sscanf_vals.
+  destruct (sscanf_phase_ok chk s n Hs Hb He) as [ph [Ep [PL PG]]]. rewrite Ep. cbn [bind].
+  destruct ph as [v| |e|].
+  - eexists; reflexivity.
+  - apply (lcache_branch_ok chk s n Hs Hb He (PL eq_refl)).
+  - apply (group_branch_ok s n e Hs (PG e eq_refl)).
+  - eexists; reflexivity.
+Qed.
+Lemma type_sscanf_as_depth_total chk levels tdepths s n : cstring s n -> bytes_ok s -> (chk = true \/ no_e0 s) ->
+  exists r, type_sscanf_as_depth chk levels tdepths s = Ok r.
+Proof.
+  intros Hs Hb He. unfold type_sscanf_as_depth.
+  destruct (type_sscanf_vals_total chk s n Hs Hb He) as [r E]. rewrite E. cbn [bind]. destruct r; eexists; reflexivity.
 Qed.
